@@ -60,6 +60,10 @@ def apis():
       'history_per_leaf_parameter': lambda c: printing.history_per_leaf_parameter(c),
       'graphviz_render': lambda c: graphviz.render(c),
       'graphviz_render_diff': lambda c: graphviz.render_diff(old=c, new=_other(c)),
+      'graphviz_render_max_str': lambda c: graphviz.render(c, max_str_length=5),
+      'graphviz_render_diff_trim': lambda c: graphviz.render_diff(old=c, new=_other(c), trim=True),
+      'graphviz_render_diff_trim_equal': lambda c: graphviz.render_diff(old=c, new=copy.deepcopy(c), trim=True),
+      'graphviz_render_diff_trim_self': lambda c: graphviz.render_diff(old=c, new=c, trim=True),
       'dump_json': lambda c: serialization.dump_json(c),
       'dump_json_pyref': lambda c: serialization.dump_json(c, pyref_policy=None),
       'build_diff_old': lambda c: diffing.build_diff(c, _other(c)),
@@ -147,8 +151,11 @@ def cases(tier, r):
   n = 14 if tier == 'quick' else 150
   for i in range(n):
     for name in API_NAMES:
+      flavours = ['plain', 'plain', 'positional', 'long', 'mutating', 'empty_tagged']
+      if name.startswith(('trim', 'graphviz', 'with_defaults', 'depth', 'structure')):
+        flavours = ['plain', 'positional', 'positional', 'long', 'mutating', 'mutating', 'empty_tagged']
       yield 'api', {'seed': r.getrandbits(48), 'size': r.choice([3, 5, 8]), 'api': name,
-                    'flavour': r.choice(['plain', 'plain', 'positional', 'long', 'mutating', 'empty_tagged'])}
+                    'flavour': r.choice(flavours)}
 
 
 def make_root(case):
